@@ -515,7 +515,12 @@ impl BuiltinProp {
                     2 => Term::atom(name),
                     3 => Term::atom(&format!("{}*", name)),
                     4 => Term::atom(&format!("{}*", &name[..name.len().min(2)])),
-                    5 => Term::atom("no*"),
+                    5 => {
+                        // pattern chosen independently of the term: shorter than, equal to, longer than the functor,
+                        // a prefix of it or not (noun vs noun_phrase*, verb vs verbal*, np vs n*, ...), with or without `*`
+                        let base = pick(s, &["noun", "noun_phrase", "noun_", "nou", "no", "n", "np", "npx", "verb", "verbal", "ver", "f", "fo", "x"]);
+                        if chance(s, 3, 4) { Term::atom(&format!("{}*", base)) } else { Term::atom(base) }
+                    }
                     6 => Term::atom("*"),
                     _ => sc.bind(s, Term::atom(name), 0),
                 };
